@@ -3,10 +3,14 @@
    Property theorems only: full statement, `exact <lemma>`, Print Assumptions.
 
    NOT PROVED (named premise ProjEqualArea): that polyhedral_forward / polyhedral_inverse multiply
-   area by the constant 4*pi / (12 * planar face area), i.e. that the Jacobian determinant of the
-   IVEA map is constant.  Also not proved: the spherical-trigonometry identification of
-   [half_excess_sine] with sin(E/2) for the spherical excess E (so that 2 asin of it IS the
-   spherical area).  These gaps are covered only by certified interval samples and search.
+   area by the constant 4*pi / (12 * planar face area) AT EVERY POINT, i.e. that the Jacobian
+   determinant of the IVEA map is constant (the infinitesimal form), and its integrated form for
+   arbitrary regions.  Also not proved: Girard's theorem, i.e. the identification of the spherical
+   excess 2 asin [half_excess_sine] with the spherical AREA; the derivative dE = (1 - cos rho) dtheta
+   of the excess of the apex wedge; that the arc bc is mapped ONTO the edge B'C' (needs continuity of
+   the excess along the arc) and hence the triangle onto the triangle; the instantiation to the
+   10 + 10 face triangles of the twelve faces; the short-cut branches; f64 arithmetic.
+   These gaps are covered only by certified interval samples and search.
    Over the ideal reals the model is not EXACTLY equal-area where triangle_area returns 2 s instead
    of 2 asin s (|s| < 1e-8) and where safe_acos / vector_difference / slerp switch formulas.
 
@@ -15,7 +19,30 @@
      determinants, and sub-triangle areas are the barycentric coordinates;
    - the algebraic half of the spherical area: for unit vectors the number triangle_area feeds to
      asin is det[v1,v2,v3] / sqrt(2 (1+v1.v2)(1+v2.v3)(1+v3.v1)), it lies in [-1,1], and
-     triangle_area returns 2 asin of it (2 s below 1e-8). *)
+     triangle_area returns 2 asin of it (2 s below 1e-8);
+   - PROVED LATE IN THE BUILD (end of this file, Geo/EqualAreaStructure.v), for ANY spherical triangle
+     a, b, c of unit vectors with positive pairwise dot products and positive orientation and any planar
+     triangle ft = (A', B', C'), on the main branch of polyhedral_forward (triangle_area on its asin
+     branch; hypotheses on a, b, c and the arc point P only), the integral-free STRUCTURE from which the
+     equal-area property follows:
+     (W1) each great-circle arc from the apex a to a point P of the arc bc is mapped onto the straight
+          segment from A' to P' (C16_forward_ray_segment, C16_ray_onto_segment), P itself to the point P'
+          of the edge B'C' at the fraction excess(abP)/excess(abc) (C16_forward_arc_point,
+          C16_edge_pt_on_edge), with radial fraction h = sin(angle(a,v)/2)/sin(angle(a,P)/2) in (0,1];
+     (W2) for EVERY P of the arc, planar area (A',B',P') : area ft = excess(abP) : excess(abc), likewise
+          (A',P',C') (C16_apex_wedge_area): the angular half of equal-area;
+     (W3) h^2 = (1 - cos angle(a,v)) / (1 - cos angle(a,P)), the ratio of the areas of the spherical caps
+          about a (C16_radial_law, C16_radial_law_angles), while cutting a planar triangle at the fractions
+          h1, h2 along its sides at the apex multiplies its area by h1 h2 (C16_planar_scale): the radial
+          half of equal-area;
+     (W4) for P1 before P2 on the arc bc: planar area (A',P1',P2') = excess(a,P1,P2) * area2 ft / excess(abc)
+          (C16_apex_subtriangle_area; so P -> P' is strictly monotone, C16_arc_frac_monotone), and
+          area (A', forward v1, forward v2) = h1 h2 times that
+          (C16_truncated_wedge_image): every apex sub-triangle is mapped with the SAME area factor;
+     with a concrete triangle and two points showing that the hypotheses are satisfiable.
+     How equal-area follows (NOT formalised): in coordinates (theta, d) about a the sphere's area form is
+     d(1 - cos d) /\ dtheta = (1 - cos rho(theta)) d(h^2) /\ dtheta by (W3); the image has planar coordinates
+     (w, h) by (W1) with area form area2 ft d(h^2) /\ dw, and dw = (1 - cos rho) dtheta / excess(abc) by (W4). *)
 From Coq Require Import ZArith Reals List.
 From A5 Require Import Num.NumOps Num.Derived Geo.Sphere Geo.Tiling Geo.Projection Geo.ProjectionProofs.
 From A5gen Require Import TablesCur.
@@ -125,3 +152,238 @@ Theorem C16_triangle_area_sine : forall v1 v2 v3 : vecR,
   exists E, triangle_area RInst v1 v2 v3 = Some E /\ - PI <= E <= PI /\ sin (E / 2) = s.
 Proof. exact triangle_area_sine. Qed.
 Print Assumptions C16_triangle_area_sine.
+
+(* ---- The structure of the equal-area property of the IVEA map on the main branch (Geo/EqualAreaStructure.v).
+   a, b, c: unit vectors, pairwise dot products positive, positively oriented; a is the apex (face centre).
+   P = be b + ga c (be, ga > 0, unit): a point of the open arc bc;  v = la a + mu P (la >= 0, mu > 0, unit): a point
+   of the great-circle arc from a to P (la = 0: v = P).  lc2 x y k l = k x + l y.
+   hrad a P v = sin(angle(a,v)/2)/sin(angle(a,P)/2); edge_pt a b c P ft = the point of ft with barycentric
+   coordinates (0, area(aPc)/area(abc), area(abP)/area(abc)); arc_frac a b c P = area(abP)/area(abc);
+   pt_lerp A Q h = A + h (Q - A); apex/vtxB/vtxC ft = the three corners; areaR = the spherical excess as the code
+   computes it.  The three hypotheses 1e-8 <= |half_excess_sine ..| say that triangle_area is on its asin branch;
+   they concern a, b, c and P only, not v.  From (W1)-(W4) the equal-area property follows by a limit argument
+   that is NOT formalised (see the header). ---- *)
+From A5 Require Import Geo.PolyhedralRoundTrip Geo.EqualAreaStructure.
+
+(* the definitions used below, spelled out *)
+Theorem C16_equal_area_defs : forall (a b c P v : vecR) (A' B' C' Q : ptR) (h : R),
+  hrad a P v = sqrt ((1 - vdot RInst a v) / 2) / sqrt ((1 - vdot RInst a P) / 2) /\
+  hR a b c v = hrad a (isect a b c v) v /\
+  apex (A', B', C') = A' /\ vtxB (A', B', C') = B' /\ vtxC (A', B', C') = C' /\
+  pt_lerp A' Q h = (fst A' + h * (fst Q - fst A'), snd A' + h * (snd Q - snd A')) /\
+  edge_pt a b c P (A', B', C') =
+    barycentric_to_face RInst (0, areaR a P c / areaR a b c, areaR a b P / areaR a b c) (A', B', C') /\
+  arc_frac a b c P = areaR a b P / areaR a b c /\
+  areaR a b c = Ratan.asin (half_excess_sine a b c) * 2.
+Proof. exact equal_area_defs. Qed.
+Print Assumptions C16_equal_area_defs.
+
+(* (W1) radial arcs go to radial segments: forward v = A' + h (P' - A') *)
+Theorem C16_forward_ray_segment :
+  forall (a b c P v : vecR) (ft : triR) be ga la mu,
+  unitv a -> unitv b -> unitv c -> unitv P -> unitv v ->
+  0 < vdot RInst a b -> 0 < vdot RInst b c -> 0 < vdot RInst c a -> 0 < triple_product RInst a b c ->
+  P = lc2 b c be ga -> 0 < be -> 0 < ga ->
+  v = lc2 a P la mu -> 0 <= la -> 0 < mu ->
+  1 / 100000000 <= Rabs (half_excess_sine a b c) ->
+  1 / 100000000 <= Rabs (half_excess_sine a P c) ->
+  1 / 100000000 <= Rabs (half_excess_sine a b P) ->
+  polyhedral_forward RInst v (a, b, c) ft =
+    Some (pt_lerp (apex ft) (edge_pt a b c P ft) (hrad a P v)).
+Proof. exact forward_ray_segment. Qed.
+Print Assumptions C16_forward_ray_segment.
+
+(* (W1) the arc point itself: forward P = P' *)
+Theorem C16_forward_arc_point :
+  forall (a b c P : vecR) (ft : triR) be ga,
+  unitv a -> unitv b -> unitv c -> unitv P ->
+  0 < vdot RInst a b -> 0 < vdot RInst b c -> 0 < vdot RInst c a -> 0 < triple_product RInst a b c ->
+  P = lc2 b c be ga -> 0 < be -> 0 < ga ->
+  1 / 100000000 <= Rabs (half_excess_sine a b c) ->
+  1 / 100000000 <= Rabs (half_excess_sine a P c) ->
+  1 / 100000000 <= Rabs (half_excess_sine a b P) ->
+  polyhedral_forward RInst P (a, b, c) ft = Some (edge_pt a b c P ft).
+Proof. exact forward_arc_point. Qed.
+Print Assumptions C16_forward_arc_point.
+
+(* (W1) the arc bc goes into the edge B'C', at the fraction area(abP)/area(abc) *)
+Theorem C16_edge_pt_on_edge :
+  forall (a b c P : vecR) (ft : triR) be ga,
+  unitv a -> unitv b -> unitv c -> unitv P ->
+  0 < vdot RInst a b -> 0 < vdot RInst b c -> 0 < vdot RInst c a -> 0 < triple_product RInst a b c ->
+  P = lc2 b c be ga -> 0 < be -> 0 < ga ->
+  edge_pt a b c P ft = pt_lerp (vtxB ft) (vtxC ft) (arc_frac a b c P) /\
+  0 < arc_frac a b c P < 1.
+Proof. exact edge_pt_on_edge. Qed.
+Print Assumptions C16_edge_pt_on_edge.
+
+(* (W1) strictly between a and P the radial fraction is strictly between 0 and 1 *)
+Theorem C16_hrad_range :
+  forall (a b c P v : vecR) be ga la mu,
+  unitv a -> unitv b -> unitv c -> unitv P -> unitv v ->
+  0 < vdot RInst a b -> 0 < vdot RInst b c -> 0 < vdot RInst c a -> 0 < triple_product RInst a b c ->
+  P = lc2 b c be ga -> 0 < be -> 0 < ga ->
+  v = lc2 a P la mu -> 0 < la -> 0 < mu ->
+  0 < hrad a P v < 1.
+Proof. exact hrad_range. Qed.
+Print Assumptions C16_hrad_range.
+
+(* (W1) every point of the planar segment (A', P'] is the image of a point of the spherical arc (a, P] *)
+Theorem C16_ray_onto_segment :
+  forall (a b c P : vecR) (ft : triR) be ga h,
+  unitv a -> unitv b -> unitv c -> unitv P ->
+  0 < vdot RInst a b -> 0 < vdot RInst b c -> 0 < vdot RInst c a -> 0 < triple_product RInst a b c ->
+  P = lc2 b c be ga -> 0 < be -> 0 < ga ->
+  1 / 100000000 <= Rabs (half_excess_sine a b c) ->
+  1 / 100000000 <= Rabs (half_excess_sine a P c) ->
+  1 / 100000000 <= Rabs (half_excess_sine a b P) ->
+  0 < h <= 1 ->
+  exists v : vecR, unitv v /\ (exists la mu, v = lc2 a P la mu /\ 0 <= la /\ 0 < mu) /\
+    vdot RInst a v = 1 - h * h * (1 - vdot RInst a P) /\ hrad a P v = h /\
+    polyhedral_forward RInst v (a, b, c) ft = Some (pt_lerp (apex ft) (edge_pt a b c P ft) h).
+Proof. exact ray_onto_segment. Qed.
+Print Assumptions C16_ray_onto_segment.
+
+(* (W2) the apex wedge has proportional area, for EVERY P of the arc: the angular half of equal-area *)
+Theorem C16_apex_wedge_area :
+  forall (a b c P : vecR) (ft : triR) be ga,
+  unitv a -> unitv b -> unitv c -> unitv P ->
+  0 < vdot RInst a b -> 0 < vdot RInst b c -> 0 < vdot RInst c a -> 0 < triple_product RInst a b c ->
+  P = lc2 b c be ga -> 0 < be -> 0 < ga ->
+  area2 (apex ft, vtxB ft, edge_pt a b c P ft) = areaR a b P / areaR a b c * area2 ft /\
+  area2 (apex ft, edge_pt a b c P ft, vtxC ft) = areaR a P c / areaR a b c * area2 ft.
+Proof. exact apex_wedge_area. Qed.
+Print Assumptions C16_apex_wedge_area.
+
+(* (W3) the radial law is the equal-area one: h^2 = (1 - a.v)/(1 - a.P) = (1 - cos d)/(1 - cos rho), the ratio of the
+   areas 2 pi (1 - cos .) of the spherical caps about a of angular radii d = angle(a,v) and rho = angle(a,P) *)
+Theorem C16_radial_law : forall a P v : vecR, unitv a -> unitv P -> unitv v -> vdot RInst a P < 1 ->
+  hrad a P v * hrad a P v = (1 - vdot RInst a v) / (1 - vdot RInst a P).
+Proof. exact radial_law. Qed.
+Print Assumptions C16_radial_law.
+
+Theorem C16_radial_law_angles : forall a P v : vecR, unitv a -> unitv P -> unitv v -> vdot RInst a P < 1 ->
+  let d := Ratan.acos (vdot RInst a v) in
+  let rho := Ratan.acos (vdot RInst a P) in
+  hrad a P v = sin (d / 2) / sin (rho / 2) /\
+  hrad a P v * hrad a P v = (1 - cos d) / (1 - cos rho).
+Proof. exact radial_law_angles. Qed.
+Print Assumptions C16_radial_law_angles.
+
+(* (W3) planar side: cutting the two sides at the apex at the fractions h1, h2 multiplies the area by h1 h2
+   (h1 = h2 = h: by h^2) *)
+Theorem C16_planar_scale : forall (A Q1 Q2 : ptR) (h1 h2 : R),
+  area2 (A, pt_lerp A Q1 h1, pt_lerp A Q2 h2) = h1 * h2 * area2 (A, Q1, Q2).
+Proof. exact planar_scale. Qed.
+Print Assumptions C16_planar_scale.
+
+Theorem C16_planar_wedge : forall (ft : triR) (w1 w2 : R),
+  area2 (apex ft, pt_lerp (vtxB ft) (vtxC ft) w1, pt_lerp (vtxB ft) (vtxC ft) w2)
+  = (w2 - w1) * area2 ft.
+Proof. exact planar_wedge. Qed.
+Print Assumptions C16_planar_wedge.
+
+(* (W4) excess of the apex sub-triangle between two arc points (P1 nearer to b): additivity used twice *)
+Theorem C16_arc_excess_between :
+  forall (a b c P1 P2 : vecR) be1 ga1 be2 ga2,
+  unitv a -> unitv b -> unitv c -> unitv P1 -> unitv P2 ->
+  0 < vdot RInst a b -> 0 < vdot RInst b c -> 0 < vdot RInst c a -> 0 < triple_product RInst a b c ->
+  P1 = lc2 b c be1 ga1 -> 0 < be1 -> 0 < ga1 ->
+  P2 = lc2 b c be2 ga2 -> 0 < be2 -> 0 < ga2 ->
+  be2 * ga1 < be1 * ga2 ->
+  areaR a b P1 + areaR a P1 P2 = areaR a b P2 /\ 0 < areaR a P1 P2.
+Proof. exact arc_excess_between. Qed.
+Print Assumptions C16_arc_excess_between.
+
+(* (W4) hence the arc bc is mapped into the edge B'C' in an order-preserving, injective way *)
+Theorem C16_arc_frac_monotone :
+  forall (a b c P1 P2 : vecR) be1 ga1 be2 ga2,
+  unitv a -> unitv b -> unitv c -> unitv P1 -> unitv P2 ->
+  0 < vdot RInst a b -> 0 < vdot RInst b c -> 0 < vdot RInst c a -> 0 < triple_product RInst a b c ->
+  P1 = lc2 b c be1 ga1 -> 0 < be1 -> 0 < ga1 ->
+  P2 = lc2 b c be2 ga2 -> 0 < be2 -> 0 < ga2 ->
+  be2 * ga1 < be1 * ga2 ->
+  arc_frac a b c P1 < arc_frac a b c P2.
+Proof. exact arc_frac_monotone. Qed.
+Print Assumptions C16_arc_frac_monotone.
+
+(* (W4) the apex sub-triangle (a, P1, P2) has its vertices P1, P2 sent to P1', P2' (C16_forward_arc_point), its sides
+   a-P1, a-P2 onto the segments A'-P1', A'-P2' (C16_forward_ray_segment, C16_ray_onto_segment), and the planar
+   triangle (A', P1', P2') has area = spherical excess * the constant area2 ft / area(abc) *)
+Theorem C16_apex_subtriangle_area :
+  forall (a b c P1 P2 : vecR) (ft : triR) be1 ga1 be2 ga2,
+  unitv a -> unitv b -> unitv c -> unitv P1 -> unitv P2 ->
+  0 < vdot RInst a b -> 0 < vdot RInst b c -> 0 < vdot RInst c a -> 0 < triple_product RInst a b c ->
+  P1 = lc2 b c be1 ga1 -> 0 < be1 -> 0 < ga1 ->
+  P2 = lc2 b c be2 ga2 -> 0 < be2 -> 0 < ga2 ->
+  be2 * ga1 < be1 * ga2 ->
+  area2 (apex ft, edge_pt a b c P1 ft, edge_pt a b c P2 ft)
+  = areaR a P1 P2 * (area2 ft / areaR a b c).
+Proof. exact apex_subtriangle_area. Qed.
+Print Assumptions C16_apex_subtriangle_area.
+
+(* (W1)-(W4) combined: the images of v1 on the ray a-P1 and v2 on the ray a-P2 span with A' a triangle of area
+   h1 h2 * excess(a,P1,P2) * area2 ft / area(abc); with h1 = h2 = h the factor is h^2 = (1 - cos d)/(1 - cos rho) *)
+Theorem C16_truncated_wedge_image :
+  forall (a b c P1 P2 v1 v2 : vecR) (ft : triR) be1 ga1 be2 ga2 la1 mu1 la2 mu2,
+  unitv a -> unitv b -> unitv c -> unitv P1 -> unitv P2 -> unitv v1 -> unitv v2 ->
+  0 < vdot RInst a b -> 0 < vdot RInst b c -> 0 < vdot RInst c a -> 0 < triple_product RInst a b c ->
+  P1 = lc2 b c be1 ga1 -> 0 < be1 -> 0 < ga1 ->
+  P2 = lc2 b c be2 ga2 -> 0 < be2 -> 0 < ga2 ->
+  be2 * ga1 < be1 * ga2 ->
+  v1 = lc2 a P1 la1 mu1 -> 0 <= la1 -> 0 < mu1 ->
+  v2 = lc2 a P2 la2 mu2 -> 0 <= la2 -> 0 < mu2 ->
+  1 / 100000000 <= Rabs (half_excess_sine a b c) ->
+  1 / 100000000 <= Rabs (half_excess_sine a P1 c) ->
+  1 / 100000000 <= Rabs (half_excess_sine a b P1) ->
+  1 / 100000000 <= Rabs (half_excess_sine a P2 c) ->
+  1 / 100000000 <= Rabs (half_excess_sine a b P2) ->
+  exists q1 q2 : ptR,
+    polyhedral_forward RInst v1 (a, b, c) ft = Some q1 /\
+    polyhedral_forward RInst v2 (a, b, c) ft = Some q2 /\
+    area2 (apex ft, q1, q2)
+    = hrad a P1 v1 * hrad a P2 v2 * (areaR a P1 P2 * (area2 ft / areaR a b c)).
+Proof. exact truncated_wedge_image. Qed.
+Print Assumptions C16_truncated_wedge_image.
+
+(* (W1) for a point strictly inside the spherical triangle, in the terms of C15_polyhedral_forward_main_branch:
+   P = isect a b c v, h = hR a b c v *)
+Theorem C16_forward_ray_segment_interior :
+  forall (a b c v : vecR) (ft : triR),
+  unitv a -> unitv b -> unitv c -> unitv v ->
+  0 < vdot RInst a b -> 0 < vdot RInst b c -> 0 < vdot RInst c a ->
+  0 < triple_product RInst a b c -> 0 < triple_product RInst a b v ->
+  0 < triple_product RInst b c v -> 0 < triple_product RInst c a v ->
+  let P := isect a b c v in
+  1 / 100000000 <= Rabs (half_excess_sine a b c) ->
+  1 / 100000000 <= Rabs (half_excess_sine a P c) ->
+  1 / 100000000 <= Rabs (half_excess_sine a b P) ->
+  polyhedral_forward RInst v (a, b, c) ft = Some (pt_lerp (apex ft) (edge_pt a b c P ft) (hR a b c v)) /\
+  polyhedral_forward RInst P (a, b, c) ft = Some (edge_pt a b c P ft) /\
+  edge_pt a b c P ft = pt_lerp (vtxB ft) (vtxC ft) (arc_frac a b c P) /\
+  0 < arc_frac a b c P < 1 /\ 0 < hR a b c v < 1.
+Proof. exact forward_ray_segment_interior. Qed.
+Print Assumptions C16_forward_ray_segment_interior.
+
+(* the hypotheses are jointly satisfiable: the triangle ex_a, ex_b, ex_c and the points ex_v, ex_v2 *)
+Theorem C16_forward_ray_segment_instance :
+  let P := isect ex_a ex_b ex_c ex_v in
+  polyhedral_forward RInst ex_v (ex_a, ex_b, ex_c) ex_ft
+    = Some (pt_lerp (apex ex_ft) (edge_pt ex_a ex_b ex_c P ex_ft) (hR ex_a ex_b ex_c ex_v)) /\
+  polyhedral_forward RInst P (ex_a, ex_b, ex_c) ex_ft = Some (edge_pt ex_a ex_b ex_c P ex_ft) /\
+  edge_pt ex_a ex_b ex_c P ex_ft = pt_lerp (vtxB ex_ft) (vtxC ex_ft) (arc_frac ex_a ex_b ex_c P) /\
+  0 < arc_frac ex_a ex_b ex_c P < 1 /\ 0 < hR ex_a ex_b ex_c ex_v < 1.
+Proof. exact forward_ray_segment_instance. Qed.
+Print Assumptions C16_forward_ray_segment_instance.
+
+Theorem C16_truncated_wedge_instance :
+  let P1 := isect ex_a ex_b ex_c ex_v in
+  let P2 := isect ex_a ex_b ex_c ex_v2 in
+  exists q1 q2 : ptR,
+    polyhedral_forward RInst ex_v (ex_a, ex_b, ex_c) ex_ft = Some q1 /\
+    polyhedral_forward RInst ex_v2 (ex_a, ex_b, ex_c) ex_ft = Some q2 /\
+    area2 (apex ex_ft, q1, q2)
+    = hrad ex_a P1 ex_v * hrad ex_a P2 ex_v2 *
+      (areaR ex_a P1 P2 * (area2 ex_ft / areaR ex_a ex_b ex_c)).
+Proof. exact truncated_wedge_instance. Qed.
+Print Assumptions C16_truncated_wedge_instance.
